@@ -536,6 +536,10 @@ func parseSccExtension(r *bits.EBSPReader) (*SccExtension, error) {
 				numComps = 3
 				ext.ChromaBitDepthEntryMinus8 = r.ReadExpGolomb()
 			}
+			if ext.LumaBitDepthEntryMinus8 > 8 || ext.ChromaBitDepthEntryMinus8 > 8 {
+				return nil, fmt.Errorf("luma_bit_depth_entry_minus8 %d or chroma_bit_depth_entry_minus8 %d is larger than 8",
+					ext.LumaBitDepthEntryMinus8, ext.ChromaBitDepthEntryMinus8)
+			}
 			ext.PalettePredictorInitializer = make([][]uint, numComps)
 			// Fill luma
 			for i := uint(0); i < ext.NumPalettePredictorInitializers && r.AccError() == nil; i++ {
